@@ -388,6 +388,10 @@ template <size_t L> struct X {
             A("copy(dest,count,pos)", {{'c', c}, {'p', p}});
             OBS(p <= len, ([&] { CStr d(std::string(c, '#')); size_t n = fs.copy(d.p, c, p); return std::to_string(n) + ":" + std::string(d.p, c); })(),
                 ([&] { std::string d(c, '#'); size_t n = ref.copy(&d[0], c, p <= len ? p : 0); return std::to_string(n) + ":" + d; })());
+         } else {      // count far beyond the capacity: the destination only has to hold what can be copied (min(count, length - pos) <= L characters)
+            A("copy(dest,hugecount,pos)", {{'c', c}, {'p', p}});
+            OBS(p <= len, ([&] { CStr d(std::string(L + 2, '#')); size_t n = fs.copy(d.p, c, p); return std::to_string(n) + ":" + std::string(d.p, L + 2); })(),
+                ([&] { std::string d(L + 2, '#'); size_t n = ref.copy(&d[0], c, p <= len ? p : 0); return std::to_string(n) + ":" + d; })());
          }
       }
       A("substr(pos)", {{'p', 0}}); OBS(true, fs.substr(0), ref);
